@@ -55,6 +55,7 @@ type c09Inst struct {
 	events   []string
 	ckptIDs  []uint64
 	hangWait time.Duration
+	dir      int // storage directory i<dir> (its own index unless it reuses the directory of an earlier instance)
 	// a real operator.Operator serving this instance (deployed through HandleDeploy); neighbours then ask it through
 	// HandleNeedsTable
 	op        *operator.Operator
@@ -84,6 +85,29 @@ type c09World struct {
 	askResume chan struct{}
 	askAnswer chan bool
 	slowUsed  bool
+	docOwner  map[int]int               // directory -> instance whose checkpoints document is there now
+	creator   map[string]int            // table uri -> instance that wrote it
+	walSig    map[c09Handle]map[string]string // handle -> WAL path -> content signature when the handle was taken
+}
+
+func (w *c09World) dirOf(idx int) int {
+	if idx >= 0 && idx < len(w.insts) {
+		return w.insts[idx].dir
+	}
+	return idx
+}
+
+// sig identifies the content of a file (an overwritten WAL has the same name and other content)
+func (w *c09World) sig(rel string) string {
+	b, err := w.store.read(rel)
+	if err != nil {
+		return "absent"
+	}
+	h := uint64(1469598103934665603)
+	for _, c := range b {
+		h = (h ^ uint64(c)) * 1099511628211
+	}
+	return fmt.Sprintf("%d:%x", len(b), h)
 }
 
 func (w *c09World) canon(uri string) string { return strings.TrimPrefix(uri, w.prefix) }
@@ -290,8 +314,11 @@ func (w *c09World) hook(label string, payload []any) {
 			return
 		}
 		c := w.canon(uri)
-		idx := strings.TrimPrefix(c[:strings.Index(c, "/")], "i")
 		w.mu.Lock()
+		idx := strings.TrimPrefix(c[:strings.Index(c, "/")], "i")
+		if ci, ok := w.creator[uri]; ok {
+			idx = strconv.Itoa(ci)
+		}
 		if !w.closed {
 			w.cleanups = append(w.cleanups, fmt.Sprintf("%s:%s:c:del", idx, c))
 		}
@@ -306,6 +333,7 @@ func (w *c09World) hook(label string, payload []any) {
 		for _, ti := range x.db.VerifLevels().VerifLayout()[0] {
 			if !x.known[ti.URI] {
 				x.known[ti.URI] = true
+				w.creator[ti.URI] = x.idx
 				x.events = append(x.events, "f+"+w.tblString(ti.URI, ti.StartKey, ti.EndKey))
 			}
 		}
@@ -328,6 +356,7 @@ func (w *c09World) hook(label string, payload []any) {
 		for _, t := range added {
 			d := t.Document()
 			x.known[d.URI] = true
+			w.creator[d.URI] = x.idx
 			add = append(add, w.tblString(d.URI, d.StartKey, d.EndKey))
 		}
 		x.events = append(x.events, "c-"+c09Join(rm)+"+"+c09Join(add))
@@ -360,7 +389,7 @@ type c09Doc struct {
 }
 
 func (w *c09World) readDoc(writer int) (*c09Doc, error) {
-	data, err := w.store.read(fmt.Sprintf("i%d/checkpoints", writer))
+	data, err := w.store.read(fmt.Sprintf("i%d/checkpoints", w.dirOf(writer)))
 	if err != nil {
 		return nil, err
 	}
@@ -372,6 +401,14 @@ func (w *c09World) readDoc(writer int) (*c09Doc, error) {
 }
 
 func (w *c09World) docEntry(writer int, id uint64) (tables []string, uris []string, wals []string, ok bool) {
+	if owner, seen := w.docOwner[w.dirOf(writer)]; !seen || owner != writer {
+		return nil, nil, nil, false // no document of this writer (never saved, or replaced by a later instance)
+	}
+	return w.docEntryAny(writer, id)
+}
+
+// docEntryAny reads the entry from whatever document is in the writer's directory now
+func (w *c09World) docEntryAny(writer int, id uint64) (tables []string, uris []string, wals []string, ok bool) {
 	d, err := w.readDoc(writer)
 	if err != nil {
 		return nil, nil, nil, false
@@ -517,7 +554,7 @@ func runC09(c lib.Case) []string {
 	c09ForceGC(5 * time.Second)
 	c09Seq++
 	dir := fmt.Sprintf("c09-%d", c09Seq)
-	w := &c09World{nextID: 1}
+	w := &c09World{nextID: 1, docOwner: map[int]int{}, creator: map[string]int{}, walSig: map[c09Handle]map[string]string{}}
 	if c09Field(hf, "fs") == "local" {
 		base := os.TempDir()
 		if st, err := os.Stat("/dev/shm"); err == nil && st.IsDir() {
@@ -599,7 +636,7 @@ func runC09(c lib.Case) []string {
 					if _, _, _, ok := w.docEntry(wi, fromID); !ok {
 						okAll = false
 					}
-					handles = append(handles, recovery.CheckpointHandle{CheckpointID: fromID, URI: w.prefix + fmt.Sprintf("i%d/checkpoints", wi)})
+					handles = append(handles, recovery.CheckpointHandle{CheckpointID: fromID, URI: w.prefix + fmt.Sprintf("i%d/checkpoints", w.dirOf(wi))})
 				}
 				if !okAll {
 					out = append(out, "no-such-checkpoint")
@@ -621,7 +658,10 @@ func runC09(c lib.Case) []string {
 					continue
 				}
 			}
-			x := &c09Inst{idx: idx, gen: gen, lo: lo, hi: hi, alive: true, mode: "truthful", known: map[string]bool{}}
+			x := &c09Inst{idx: idx, gen: gen, lo: lo, hi: hi, alive: true, mode: "truthful", known: map[string]bool{}, dir: idx}
+			if ds := c09Field(f, "dir"); ds != "" {
+				x.dir, _ = strconv.Atoi(ds)
+			}
 			var preTabs []string // the hook must know the loaded tables before the replay's first flush commits
 			for _, wi := range fromWs {
 				ts, _, _, _ := w.docEntry(wi, fromID)
@@ -630,7 +670,7 @@ func runC09(c lib.Case) []string {
 				}
 			}
 			res := c09Guard(func() string {
-				if c09Field(f, "host") == "op" && w.store.location() != "" && len(handles) > 0 {
+				if c09Field(f, "host") == "op" && w.store.location() != "" && len(handles) > 0 && x.dir == idx {
 					// a real operator.Operator deployed through HandleDeploy serves this instance
 					all := append([]partitioning.KeyGroupRange{{Start: lo, End: hi}}, ranges...)
 					sort.Slice(all, func(a, b int) bool { return all[a].Start < all[b].Start })
@@ -651,8 +691,8 @@ func runC09(c lib.Case) []string {
 						StorageLocation: w.store.location()}
 					for _, wi := range fromWs {
 						req.Checkpoints = append(req.Checkpoints, &snapshotpb.OperatorCheckpoint{CheckpointId: fromID,
-							OperatorId: fmt.Sprintf("i%d", wi), DkvFileUri: w.prefix + fmt.Sprintf("i%d/checkpoints", wi)})
-						x.srcDocs = append(x.srcDocs, fmt.Sprintf("i%d/checkpoints", wi))
+							OperatorId: fmt.Sprintf("i%d", wi), DkvFileUri: w.prefix + fmt.Sprintf("i%d/checkpoints", w.dirOf(wi))})
+						x.srcDocs = append(x.srcDocs, fmt.Sprintf("i%d/checkpoints", w.dirOf(wi)))
 					}
 					for _, t := range preTabs {
 						x.known[t] = true
@@ -676,7 +716,7 @@ func runC09(c lib.Case) []string {
 					return ""
 				}
 				own := &c09Ownership{w: w, idx: idx, inner: operator.VerifNewOperatorPartitionWithNeighbors(partitioning.KeyGroupRange{Start: lo, End: hi}, ranges, ops)}
-				db := dkv.New(dkv.DBOptions{FileSystem: w.store.instFS(fmt.Sprintf("i%d", idx)), MemTableSize: uint64(mem), TargetFileSize: 96,
+				db := dkv.New(dkv.DBOptions{FileSystem: w.store.instFS(fmt.Sprintf("i%d", x.dir)), MemTableSize: uint64(mem), TargetFileSize: 96,
 					L0TableNumCompactionTrigger: l0, DataOwnership: own})
 				comp := db.VerifCompactor()
 				comp.SmallestLevelSize = 1
@@ -846,11 +886,17 @@ func runC09(c lib.Case) []string {
 				out = append(out, res)
 				continue
 			}
+			w.docOwner[x.dir] = x.idx
 			_, uris, wals, ok := w.docEntry(x.idx, id)
 			if !ok {
 				out = append(out, "no-doc-entry")
 				continue
 			}
+			sigs := map[string]string{}
+			for _, wl := range wals {
+				sigs[wl] = w.sig(wl)
+			}
+			w.walSig[c09Handle{x.idx, id}] = sigs
 			x.ckptIDs = append(x.ckptIDs, id)
 			if id >= w.nextID {
 				w.nextID = id + 1
@@ -928,6 +974,7 @@ func runC09(c lib.Case) []string {
 				continue
 			}
 			x.ckptIDs = keptIDs
+			w.docOwner[x.dir] = x.idx
 			out = append(out, "ok deleted="+c09Join(c09Minus(before, w.listFiles())))
 		case "snap":
 			x := inst(f[1])
@@ -1118,13 +1165,21 @@ func runC09(c lib.Case) []string {
 			}
 			miss := map[string]bool{}
 			for _, h := range w.retained {
-				_, uris, wals, ok := w.docEntry(h.writer, h.id)
+				_, uris, wals, ok := w.docEntryAny(h.writer, h.id)
 				if !ok {
 					miss[fmt.Sprintf("doc:i%d:%d", h.writer, h.id)] = true
 					continue
 				}
-				for _, u := range append(uris, wals...) {
+				for _, u := range uris {
 					if !have[u] {
+						miss[u] = true
+					}
+				}
+				// a WAL of the handle must exist with the content it had when the checkpoint was taken (a later WAL
+				// written under the same name is another file)
+				sigs := w.walSig[h]
+				for _, u := range wals {
+					if want, known := sigs[u]; !have[u] || (known && w.sig(u) != want) {
 						miss[u] = true
 					}
 				}
@@ -1161,6 +1216,7 @@ func runC09(c lib.Case) []string {
 // ---- generator ----
 
 type c09GenInst struct {
+	dir    int
 	hosted bool
 	alive  bool
 	gen    int
@@ -1181,9 +1237,12 @@ type c09Gen struct {
 
 func (g *c09Gen) emit(format string, a ...any) { g.ops = append(g.ops, fmt.Sprintf(format, a...)) }
 
-func (g *c09Gen) open(lo, hi, gen int, nbrs []string, from string, fromID int, host bool) int {
+func (g *c09Gen) open(lo, hi, gen int, nbrs []string, from string, fromID int, host bool, dir int) int {
 	idx := len(g.insts)
-	x := &c09GenInst{alive: true, gen: gen, lo: lo, hi: hi, hosted: host}
+	if dir < 0 {
+		dir = idx
+	}
+	x := &c09GenInst{alive: true, gen: gen, lo: lo, hi: hi, hosted: host, dir: dir}
 	if from != "none" {
 		x.ckpts = []int{fromID}
 		for id, ws := range g.handles {
@@ -1203,9 +1262,12 @@ func (g *c09Gen) open(lo, hi, gen int, nbrs []string, from string, fromID int, h
 		}
 	}
 	g.insts = append(g.insts, x)
-	if host {
+	switch {
+	case host:
 		g.emit("open %d-%d gen=%d nbrs=%s from=%s host=op", lo, hi, gen, c09Join(nbrs), from)
-	} else {
+	case dir != idx:
+		g.emit("open %d-%d gen=%d nbrs=%s from=%s dir=%d", lo, hi, gen, c09Join(nbrs), from, dir)
+	default:
 		g.emit("open %d-%d gen=%d nbrs=%s from=%s", lo, hi, gen, c09Join(nbrs), from)
 	}
 	return idx
@@ -1438,7 +1500,7 @@ func genC09(r *lib.Rng, tier string) lib.Case {
 	n := lib.Pick(r, []int{1, 1, 2})
 	rs := c09Ranges(n)
 	for k, rg := range rs {
-		g.open(rg[0], rg[1], 0, g.nbrsOf(rs, k), "none", 0, false)
+		g.open(rg[0], rg[1], 0, g.nbrsOf(rs, k), "none", 0, false, -1)
 	}
 	for gen := 0; gen < gens; gen++ {
 		for _, i := range g.alive() {
@@ -1484,15 +1546,36 @@ func genC09(r *lib.Rng, tier string) lib.Case {
 				nrs = append(nrs, [2]int{g.insts[wi].lo, g.insts[wi].hi})
 			}
 		}
+		dirTaken := map[int]bool{}
 		for k, rg := range nrs {
 			var src []string
+			var srcIdx []int
 			for _, wi := range writers {
 				if g.insts[wi].lo < rg[1] && rg[0] < g.insts[wi].hi {
 					src = append(src, strconv.Itoa(wi))
+					srcIdx = append(srcIdx, wi)
 				}
 			}
+			if r.Chance(1, 3) {
+				// handles arrive in the job's order, not sorted
+				r2 := r.Intn(len(src))
+				src[0], src[r2] = src[r2], src[0]
+				srcIdx[0], srcIdx[r2] = srcIdx[r2], srcIdx[0]
+			}
 			host := local && (m == 1 || m == 2 || m == 4) && m == len(nrs) && c09Even(nrs) && r.Chance(1, 2)
-			g.open(rg[0], rg[1], gen+1, g.nbrsOf(nrs, k), fmt.Sprintf("%s:%d", strings.Join(src, "+"), id), id, host)
+			// the operator keeps its id: the new instance lives in the directory of one of the instances it restores from
+			dir := -1
+			if !host && r.Chance(1, 3) {
+				d := g.insts[lib.Pick(r, srcIdx)].dir
+				if !dirTaken[d] {
+					dir = d
+					dirTaken[d] = true
+					// the new instance's first save replaces the directory's checkpoints document by its own list, which
+					// starts at the restored checkpoint (open finding D50): the job keeps no older checkpoint here
+					g.jobdrop(id - 1)
+				}
+			}
+			g.open(rg[0], rg[1], gen+1, g.nbrsOf(nrs, k), fmt.Sprintf("%s:%d", strings.Join(src, "+"), id), id, host, dir)
 			if r.Chance(1, 3) {
 				g.observe()
 			}
@@ -1527,6 +1610,14 @@ func c09Fixed(tier string) []lib.Case {
 
 func c09FixedAll() []lib.Case {
 	return []lib.Case{
+		// scale-in in the surviving operator's own directory: it restores from its own checkpoint (WAL 1) and from
+		// the checkpoint of an operator that joined later (WAL 0); the WALs of the restored checkpoint and of the next
+		// one must survive the retention update that drops the restored checkpoint
+		{Header: "M C09 mem=120 l0=2", Tags: []string{"scale-in-own-directory"}, Ops: []string{
+			"open 0-4 gen=0 nbrs=4-8 from=none", "open 4-8 gen=0 nbrs=0-4 from=none",
+			"write 0 8 1 0-3", "ckpt 0 1", "write 0 8 2 0-3", "write 1 8 3 4-7", "ckpt 0 2", "ckpt 1 2", "jobdrop 1", "retain 0 2",
+			"crash 0", "crash 1", "open 0-8 gen=1 nbrs=- from=0+1:2 dir=0", "write 2 8 4 0-7", "files", "missing", "ckpt 2 3",
+			"files", "missing", "jobdrop 2", "retain 2 3", "gc", "files", "missing"}},
 		// a real operator.Operator serves instance 2; its redeploy fails (the checkpoints document is unreadable at
 		// that moment) and the neighbour's cleanup asks it through HandleNeedsTable afterwards: it must still answer
 		// for the instance it had
